@@ -75,6 +75,17 @@ Fixpoint chunks_of (n fuel : nat) (data : str) : list str :=
   | S f => match data with [] => [] | _ => firstn n data :: chunks_of n f (skipn n data) end
   end.
 
+(** big.Int.Div panics on a zero divisor *)
+Definition go_div (p : site) (a b : Z) : out Z := if Z.eqb b 0 then Panic p else Ok (Z.div a b).
+
+(** VoteResult.threshold (with fixes/F28): does the winning tally reach 2/3 of the total stake *)
+Definition threshold (power total : Z) : out bool :=
+  if Z.eqb power 0 then Ok false else
+  unit <- go_div ("system.VoteResult.threshold", "div", "new(big.Int).Div(power, big.NewInt(100))") power 100 ;;
+  if Z.eqb unit 0 then Ok false else
+  q <- go_div ("system.VoteResult.threshold", "div", "new(big.Int).Div(total, unit)") total unit ;;
+  Ok (Z.leb q 150).
+
 (* ------------------------------------------------------------------ the vote tally *)
 Definition tally := list (str * Z).     (* VoteResult.rmap *)
 
@@ -154,8 +165,9 @@ Section Run.
   (** what an executed system transaction writes *)
   Record sysupd := mkUpd {
     u_staking : option str;
-    u_votes : list (str * str);          (* issue key -> new raw vote of the sender *)
-    u_results : list (str * str) }.      (* issue key -> new raw vote-result list *)
+    u_changes : list (str * str * str) }.   (* issue key, new raw vote of the sender, new raw vote-result list *)
+  Definition u_votes (u : sysupd) : list (str * str) := map (fun c => (fst (fst c), snd (fst c))) (u_changes u).
+  Definition u_results (u : sysupd) : list (str * str) := map (fun c => (fst (fst c), snd c)) (u_changes u).
 
   Definition old_vote (ex : bool) (raw : str) : out (option (str * str)) :=
     match raw with [] => Ok None | _ => v <- de_vote ex raw ;; Ok (Some v) end.
@@ -177,8 +189,7 @@ Section Run.
     old <- old_vote ex (vote_raw_of sv key) ;;
     t <- update_result ex (result_raw rv key) old (cand, amount) ;;
     Ok (mkUpd (Some (ser_staking (Z.to_N (sv_block sv)) amount))
-              [(key, ser_vote ex cand amount)]
-              [(key, store_result ex t)]).
+              [(key, ser_vote ex cand amount, store_result ex t)]).
 
   (** refreshAllVote: for every issue of the catalog whose recorded vote exceeds the new stake *)
   Fixpoint refresh_run (keys : list str) (staked : Z) (amount : str) (sv : sysview) (rv : runview)
@@ -194,8 +205,7 @@ Section Run.
             if Z.leb (be_val a) staked then refresh_run rest staked amount sv rv acc else
             t <- update_result ex (result_raw rv key) (Some (c, a)) (c, amount) ;;
             refresh_run rest staked amount sv rv
-              (mkUpd (u_staking acc) ((key, ser_vote ex c amount) :: u_votes acc)
-                     ((key, store_result ex t) :: u_results acc))
+              (mkUpd (u_staking acc) ((key, ser_vote ex c amount, store_result ex t) :: u_changes acc))
         end
     end.
 
@@ -207,12 +217,12 @@ Section Run.
     let '(_, _, staked) := st in
     match cx_op cx with
     | OpStake =>
-        Ok (mkUpd (Some (ser_staking (Z.to_N (sv_block sv)) (be_bytes (staked + amount)))) [] [])
+        Ok (mkUpd (Some (ser_staking (Z.to_N (sv_block sv)) (be_bytes (staked + amount)))) [])
     | OpUnstake =>
         let adj := if Z.ltb staked amount then staked else amount in
         let newamt := be_bytes (staked - adj) in
         refresh_run catalog (staked - adj) newamt sv rv
-          (mkUpd (Some (ser_staking (Z.to_N (sv_block sv)) newamt)) [] [])
+          (mkUpd (Some (ser_staking (Z.to_N (sv_block sv)) newamt)) [])
     | OpVoteBP => vote_run ci issue_bp sv rv
     | OpVoteDAO =>
         match ci_args ci with
@@ -291,8 +301,14 @@ Fixpoint set_votes (key acct raw : str) (l : list (str * list (str * str))) : li
   | (k', m) :: l' => if str_eqb key k' then (key, set_raw acct raw m) :: l' else (k', m) :: set_votes key acct raw l'
   end.
 
-Definition apply_upd (g : gstate) (acct : str) (u : sysupd) : gstate :=
-  mkG (match u_staking u with Some r => set_raw acct r (g_staking g) | None => g_staking g end)
-      (fold_right (fun kv vs => set_votes (fst kv) acct (snd kv) vs) (g_votes g) (u_votes u))
-      (fold_right (fun kv rs => set_raw (fst kv) (snd kv) rs) (g_results g) (u_results u))
+(** one issue: the sender's vote record and the issue's result list are rewritten together *)
+Definition apply1 (acct : str) (c : str * str * str) (g : gstate) : gstate :=
+  mkG (g_staking g) (set_votes (fst (fst c)) acct (snd (fst c)) (g_votes g)) (set_raw (fst (fst c)) (snd c) (g_results g))
       (g_names g) (g_names0 g) (g_ent g).
+
+Definition set_staking (acct : str) (o : option str) (g : gstate) : gstate :=
+  mkG (match o with Some r => set_raw acct r (g_staking g) | None => g_staking g end)
+      (g_votes g) (g_results g) (g_names g) (g_names0 g) (g_ent g).
+
+Definition apply_upd (g : gstate) (acct : str) (u : sysupd) : gstate :=
+  fold_right (apply1 acct) (set_staking acct (u_staking u) g) (u_changes u).
